@@ -371,6 +371,8 @@ class Facts:
                 im["self_adt_n"] = norm(im.get("self_adt"))
                 im["trait_n"] = norm(im.get("trait"))
                 self.impls.append(im)
+        from . import defuse
+        defuse.install_closure_info(self)
 
     # ------------------------------------------------------------------ lookup helpers
     def all_bodies(self, bins=True, mocks=False):
